@@ -121,7 +121,10 @@ class SMCSampler(MCMCSampler):
         """
         if not self.adaptive:
             beta += beta_step
-            if beta >= 1.0:
+            # Snap to 1 once less than half a step remains: the accumulated
+            # sum of 1 / n_steps can stay just below 1.0 after n_steps
+            # additions (e.g. n_steps=10), which added an extra iteration.
+            if beta >= 1.0 - 0.5 * beta_step:
                 beta = 1.0
         else:
             beta_prev = beta
